@@ -223,7 +223,11 @@ func (p *pool) done(r PathResult) {
 	switch r.Out {
 	case OutBound, OutUnsupported, OutUnknown:
 		if len(st.Problems) < 50 {
-			st.Problems = append(st.Problems, r.Out.String()+": "+r.Msg+" trail="+r.Trail)
+			msg := r.Msg
+			if len(msg) > 700 {
+				msg = msg[:700] + "…"
+			}
+			st.Problems = append(st.Problems, r.Out.String()+": "+msg+" trail="+r.Trail)
 		}
 	}
 	if len(st.Samples) < 6 || (r.Out != OutOK && r.Out != OutPruned && len(st.Samples) < 12) {
@@ -389,6 +393,8 @@ func (i *interpreter) runPath(pkg *ssa.Package, fn *ssa.Function, prefix []Decis
 	i.resetGopkiGlobals()
 	i.callDepth = 0
 	i.now = 0
+	i.hasFixedNow = false
+	i.setLocalZone(int(0))
 	defer func() {
 		ps := i.ps
 		res.Steps = ps.steps
